@@ -147,6 +147,23 @@ type vfC03Cfg struct {
 	tick    int // ms of virtual time per request (0 = the clock stands still)
 	rht     bool // ReplaceHashTag
 	flt     *vfc03.FilterSpec
+	vform   int // how cfg.Redis.Version is written: 0 "M.m.0", 1 "M.m", 2 "M" (minor 0 only), 3 "M.m.14"
+}
+
+// verStr: the configured target version string (the code compares components with util.VersionGE; a missing
+// component counts as 0)
+func (c vfC03Cfg) verStr() string {
+	switch c.vform {
+	case 1:
+		return fmt.Sprintf("%d.%d", c.tgt, c.minor)
+	case 2:
+		if c.minor == 0 {
+			return strconv.Itoa(c.tgt)
+		}
+	case 3:
+		return fmt.Sprintf("%d.%d.14", c.tgt, c.minor)
+	}
+	return fmt.Sprintf("%d.%d.0", c.tgt, c.minor)
 }
 
 func (c vfC03Cfg) dbmapStr() string {
@@ -286,7 +303,7 @@ func vfC03Send(t *testing.T, data []byte, c vfC03Cfg, pre []vfC03Pre) (tg *vfc03
 			Filter:                 c.filterConfig(),
 			Redis: config.RedisConfig{
 				Type:    config.RedisTypeStandalone,
-				Version: fmt.Sprintf("%d.%d.0", c.tgt, c.minor),
+				Version: c.verStr(),
 			},
 		})
 		ro.newRedisConn = func(context.Context) (redisclient.Redis, error) {
@@ -368,6 +385,10 @@ func TestVerifC03Replay(t *testing.T) {
 		if c.tgt == 6 && r.Bool() {
 			c.minor = 2
 		}
+		if c.tgt >= 7 && r.Chance(1, 3) {
+			c.minor = 2 // 7.2 / 8.2: no gate lies there, the comparison must still say ">= 7", ">= 6.2"
+		}
+		c.vform = r.Intn(4)
 		if r.Chance(1, 2) {
 			// a clock that advances with every request (one lane, so that the instant each
 			// entry's replay starts is a function of the request count)
@@ -522,9 +543,13 @@ func TestVerifC03Replay(t *testing.T) {
 	}
 
 	g := vfc03.NewGen(r.Fork())
-	n := vfutil.Scale(220, 5000)
+	n := vfutil.Scale(220, 4400)
 	for i := 0; i < n; i++ {
-		ds := g.File(vfc03.FileOpts{MaxKeys: 6, Now: now, MultiDB: true, Reserved: true, Modules: true,
+		force := 0
+		if i%3 == 1 {
+			force = i/3 + 1 // every third file draws one of the forced degenerate-but-legal shapes, in turn
+		}
+		ds := g.File(vfc03.FileOpts{MaxKeys: 6, Now: now, MultiDB: true, Reserved: true, Modules: true, Force: force, NearExpiry: i%4 == 2,
 			Huge: i == n/2 || (vfutil.Thorough() && i%500 == 7),
 			Many: map[int]string{n/3: "slpmany", 2*n/3: "hlpmany"}[i], Tagged: i%8 == 3, Streams: i%5 == 1, Versions: []int{6, 7, 8, 9, 10, 11, 12, 13}})
 		c := randCfg(ds)
@@ -540,6 +565,22 @@ func TestVerifC03Replay(t *testing.T) {
 				}
 				seen[id] = true
 			}
+		}
+		if i%4 == 2 {
+			// keys that expire while the replay runs: keep one snapshot key per target cell (the model's
+			// existence table does not know that an earlier key of the same cell has expired meanwhile)
+			seen := map[string]bool{}
+			for _, k := range ds.Keys {
+				id := fmt.Sprintf("%d/%s", c.mapDB(k.DB), c.dstKey(k.Key))
+				if seen[id] {
+					c.tick = 0
+				}
+				seen[id] = true
+			}
+			if c.tick == 0 && r.Chance(2, 3) && len(seen) == len(ds.Keys) {
+				c.par, c.tick = 1, 1
+			}
+			c.thr = vfutil.Pick(r, []int{1, 1, 20, 100}) // the first key is a hash table: split it
 		}
 		if ds.Many {
 			c.tick = 0 // tens of thousands of requests: keep later keys' expiries ahead of the clock
@@ -593,10 +634,61 @@ func TestVerifC03Replay(t *testing.T) {
 		s.Count(fmt.Sprintf("tick_%d", c.tick))
 		s.Count(fmt.Sprintf("rht_%d", b2i(c.rht)))
 		c.flt.RHT = c.rht // the monitor's filter decision looks at the TARGET key too (/repo e867911)
+		// ---- dimension audit (session 5): one counter per option value that selects a branch
+		s.Count(fmt.Sprintf("cfg_maxBinEntryBuffer_%d", c.thr))
+		s.Count("cfg_targetVersion_" + c.tgtTok())
+		s.Count(fmt.Sprintf("cfg_targetVersionForm_%d", c.vform))
+		s.Count("cfg_functionExists_" + []string{"replace", "flush", "append"}[c.fnex])
+		s.Count(fmt.Sprintf("cfg_moduleAuxPolicyFail_%d", b2i(c.modaux)))
+		s.Count(fmt.Sprintf("cfg_replayRdbEnableRestore_%d", b2i(c.restore)))
+		s.Count(fmt.Sprintf("cfg_maxProtoBulkLen_%d", c.bulk))
+		s.Count(fmt.Sprintf("cfg_replayRdbParallel_%d", c.par))
+		s.Count(fmt.Sprintf("cfg_replaceHashTag_%d", b2i(c.rht)))
+		s.Count(fmt.Sprintf("cfg_targetDb_set_%d", b2i(c.tdb >= 0)))
+		s.Count(fmt.Sprintf("cfg_targetDbMap_set_%d", b2i(len(c.dbmap) > 0)))
+		s.Count(fmt.Sprintf("cfg_filter_dbBlacklist_%d", b2i(len(c.flt.DbBlack) > 0)))
+		s.Count(fmt.Sprintf("cfg_filter_prefixBlack_%d", b2i(len(c.flt.PBlack) > 0)))
+		s.Count(fmt.Sprintf("cfg_filter_prefixWhite_%d", b2i(len(c.flt.PWhite) > 0)))
+		s.Count(fmt.Sprintf("cfg_filter_slotBlack_%d", b2i(len(c.flt.SBlack) > 0)))
+		s.Count(fmt.Sprintf("cfg_filter_slotWhite_%d", b2i(len(c.flt.SWhite) > 0)))
+		s.Count("cfg_keyExists_replace") // ignore / error: C20's subject (the property fixes replace)
+		s.Count("cfg_redisType_standalone")
+		if k.ds != nil {
+			for _, d := range k.ds.Dims {
+				s.Count("dim_forced_" + d)
+			}
+			if k.ds.Functions > 0 {
+				s.Count("dim_function_libraries")
+				s.Add("function_library_items", k.ds.Functions)
+				// monitor: without an output filter every function library reaches a 7+ target as ONE
+				// FUNCTION RESTORE with the policy's option word, and nothing reaches an older target
+				noFilter := len(c.flt.DbBlack)+len(c.flt.PBlack)+len(c.flt.PWhite)+len(c.flt.SBlack)+len(c.flt.SWhite) == 0
+				if frp := (map[string]interface{}{"op": "l2 " + rest}); noFilter && err == nil {
+					wantN := 0
+					if c.tgt >= 7 {
+						wantN = k.ds.Functions
+					}
+					if len(tg.Funcs) != wantN {
+						s.Violate("function-libraries", fmt.Sprintf("%d function libraries in the snapshot, target %s got %d FUNCTION requests", k.ds.Functions, c.tgtTok(), len(tg.Funcs)), frp)
+					}
+					// (the log renders arguments in hex)
+					hxw := func(w string) string { return " " + vfutil.Hex([]byte(w)) }
+					word := []string{hxw("REPLACE"), hxw("FLUSH"), ""}[c.fnex]
+					for _, f := range tg.Funcs {
+						up := strings.ToLower(f)
+						if !strings.HasPrefix(up, "function"+hxw("RESTORE")+" ") || (word != "" && !strings.HasSuffix(up, word)) ||
+							(word == "" && (strings.HasSuffix(up, hxw("REPLACE")) || strings.HasSuffix(up, hxw("FLUSH")))) {
+							s.Violate("function-libraries", fmt.Sprintf("policy %d: request %.80s", c.fnex, f), frp)
+						}
+					}
+				}
+			}
+		}
 		s.Add("restore_bad_data_format_fallbacks", tg.BadFormat)
 		// observation, not a verdict: pending ids whose entry is gone cannot be recreated by commands
 		s.Add("xclaim_for_an_id_that_is_not_an_entry_of_the_stream(no_pending_entry_created)", tg.XclaimNoEntry)
 		s.Add("xclaim_time_above_target_clock_clamped", tg.XclaimClamped)
+		s.Add("keys_removed_by_the_target_clock_reaching_their_expiry", tg.ExpiredByClock)
 		if len(o.File) > 1<<20 {
 			s.Count("files_over_1MiB")
 		} else if len(o.File) > 16384 {
@@ -713,6 +805,23 @@ func TestVerifC03Replay(t *testing.T) {
 			}
 			s.Count("replayed_keys")
 			ttl := vfC03TTL(c.now, ek.ExpireAt)
+			if ttl != 1 && ek.ExpireAt != 0 && int64(ek.ExpireAt) <= tg.LastClock+2 {
+				// (+2: a key with ONE millisecond left when its expiry is set gets `PEXPIRE 1`, which the double's
+				// logical clock reads as "expires at once" - the same convention as for keys already past)
+				// the key's expiry was reached WHILE the replay ran (clock advancing with every request): it
+				// must be gone or be left with an expiry that has passed - never persistent, never later
+				s.Count("keys_expiring_during_the_replay")
+				delete(want, id)
+				if v := tg.DBs[c.mapDB(ek.DB)][string(dk)]; v != nil {
+					if v.TTL == 1 || (v.ExpAt != 0 && v.ExpAt <= tg.LastClock+3) {
+						delete(got, id)
+					} else {
+						s.Violate("expired-key-survives", fmt.Sprintf("%s expires at %d, the replay ended at %d, the target holds it with expiry %d", id, ek.ExpireAt, tg.LastClock, v.ExpAt), replay)
+						delete(got, id)
+					}
+				}
+				continue
+			}
 			if ttl == 1 {
 				// already past its expiry: must not survive the sync
 				delete(want, id)
